@@ -18,6 +18,7 @@ NEG = [  # negative controls: the model expresses each repaired defect and the p
     ("BatchSchedule_neg_wrap.cfg", "RangeIsExact"),
     ("BatchSchedule_neg_round.cfg", "HistoricalEqualsLive"),
     ("BatchSchedule_neg_gb.cfg", "HistoricalEqualsLive"),
+    ("BatchSchedule_neg_flux.cfg", "OnlyDeclaredDBRPs"),   # DBRP collection stopping at the first Flux child (a seeded defect, not found in the code)
 ]
 
 
@@ -32,7 +33,7 @@ TIER = "quick"
 
 
 _RE_COV = re.compile(r"^<(Tr\w+) line .*>: (\d+):(\d+)", re.M)
-TRACE_ACTIONS = ["TrReset", "TrNewQuery", "TrSetTimes", "TrClone", "TrTask", "TrHist", "TrHistRet", "TrStart", "TrStopped", "TrSilent"]
+TRACE_ACTIONS = ["TrReset", "TrNewQuery", "TrSetTimes", "TrClone", "TrTask", "TrHist", "TrHistRet", "TrStart", "TrStopped", "TrBatch", "TrBQ", "TrSilent"]
 
 
 def validate(sc, files, cfg="BatchScheduleTrace.cfg", parallel=6, timeout=1800, nparts=12, coverage=False):
